@@ -118,8 +118,9 @@ func (r *Router) GetRule(db, table string) Rule {
 	}
 	rule := r.rules[db][table]
 	if rule == nil {
-		//set the database of default rule
-		r.defaultRule.(*BaseRule).db = db
+		// The default rule is shared by every session of the namespace and GetRule runs
+		// without a lock: it must not be written here. Nothing reads the db of the default
+		// rule (unsharded statements carry their database in the plan).
 		return r.defaultRule
 	} else {
 		return rule
